@@ -41,7 +41,29 @@ func gen(e int64, bits int) *rsa.PrivateKey {
 	}
 }
 
+// multiPrime writes a key with three (four) prime factors: only the PKCS #1
+// container can hold one.
+func multiPrime(name string, primes int) {
+	k, err := rsa.GenerateMultiPrimeKey(rand.Reader, primes, 2048)
+	if err != nil {
+		panic(err)
+	}
+	b := pem.EncodeToMemory(&pem.Block{Type: "RSA PRIVATE KEY", Bytes: x509.MarshalPKCS1PrivateKey(k)})
+	os.WriteFile(name, b, 0o600)
+	pk, err := ssh.NewPublicKey(&k.PublicKey)
+	if err != nil {
+		panic(err)
+	}
+	os.WriteFile(name+".pub", []byte(string(ssh.MarshalAuthorizedKey(pk))[:len(ssh.MarshalAuthorizedKey(pk))-1]+" verif-"+name+"\n"), 0o644)
+	fmt.Println(name, k.N.BitLen(), len(k.Primes))
+}
+
 func main() {
+	if len(os.Args) > 1 && os.Args[1] == "multiprime" {
+		multiPrime("rsa_mp3", 3)
+		multiPrime("rsa_mp4", 4)
+		return
+	}
 	for _, c := range []struct {
 		name string
 		e    int64
